@@ -8,10 +8,21 @@ S = "batchie.data.ScreenSubset."
 CARRIERS = [S + "__init__"] + [S + g for g in ("plate_ids", "sample_ids", "treatment_ids", "sample_names", "treatment_names",
                                               "treatment_doses", "observations", "observation_mask")] + [
     S + "invert", S + "combine", S + "subset", "batchie.data.Screen.subset", "batchie.data.Screen.subset_observed",
-    "batchie.data.Screen.subset_unobserved", "batchie.data.Screen.get_plate", "batchie.data.Plate.plate_id",
-    "batchie.data.Plate.plate_name"]
+    "batchie.data.Screen.subset_unobserved", "batchie.data.Screen.get_plate", "batchie.data.Screen.plates",
+    "batchie.data.Plate.plate_id", "batchie.data.Plate.plate_name", S + "concat", S + "to_screen",
+    "batchie.common.select_unique_zipped_numpy_arrays", "batchie.data.filter_dataset_to_unique_treatments"]
 NATIVE = "c14.py"
-EXPLANATION = "work in progress"
+EXPLANATION = (
+    "Bodies of ScreenSubset.__init__, its eight per-experiment getters, invert, combine, concat (symbolic-length list), subset, "
+    "to_screen, Plate.plate_id/plate_name, Screen.subset/subset_observed/subset_unobserved/get_plate/plates, "
+    "select_unique_zipped_numpy_arrays (2-4 columns) and filter_dataset_to_unique_treatments (arity 1-3) proved against: "
+    "getter = parent's column at the selected rows in parent order (rank/idx selection theory); invert = pointwise "
+    "complement; combine/concat = pointwise union, ValueError iff parents differ (by identity), operands unchanged - an "
+    "in-place write into an operand's vector fails a frame obligation; subset composes as sel[i] & inner[rank(sel,i)] in a "
+    "NEW vector and leaves the outer view untouched; observed/unobserved views are the mask / its complement and None iff "
+    "empty; plates = one non-empty view per distinct plate id, ascending, covering every row; to_screen = the six columns "
+    "selected in order + same control name; unique filter = exactly one representative per distinct (sample, treatment ids) "
+    "tuple. Observation values are opaque payloads, so 'same value' is identity in the logic.")
 TRUSTED = ["pyvc symbolic executor; z3 5.1", "numpy selection theory (rank/idx), scatter, np.where, np.unique models (pyvc.lib)",
            "Screen.__init__ assumed contract (C01 covers its body)"]
 ASSUMPTIONS = []
